@@ -372,9 +372,7 @@ func runC15Pool(s *kernel.Sim) {
 		if hasErr && string(e) == "null" {
 			hasErr = false
 		}
-		if hasRes && hasErr && string(r) == "null" {
-			hasRes = false // the server writes "result":null next to an error: counted as an error reply
-		}
+		_ = r // ("result":null next to an error is both members: a peer that looks at result first sees a success)
 		if hasRes == hasErr {
 			s.Violate("one_reply", "a reply carries both or neither of result and error", "request id %s (%s): reply %s", sr.id, sr.desc, rs[0])
 			return
@@ -548,6 +546,14 @@ func (r *RecvA) Mixed(ctx context.Context, s string, n int64, f bool, l []string
 func (r *RecvA) Hidden(x hiddenT) string   { r.hit("Hidden"); return "" }
 func (r *RecvA) helper() string            { r.hit("helper"); return "" }
 func (r *RecvA) URLEncode(s string) string { r.hit("URLEncode"); return s }
+
+// RecvOdd has methods of shapes that reflection can describe but a positional call cannot serve as they are.
+type RecvOdd struct{}
+
+func (r *RecvOdd) Fine() string                                     { return "fine" }
+func (r *RecvOdd) Join(sep string, xs ...string) string             { return strings.Join(xs, sep) }
+func (r *RecvOdd) Late(a int, ctx context.Context) int              { return a }
+func (r *RecvOdd) Both(ctx context.Context, xs ...int) (int, error) { return len(xs), nil }
 
 var recvAMethods = map[string][]string{ // exported & registrable: name -> JSON kinds of positional params
 	"Ping": {}, "Add": {"int", "int"}, "Greet": {"string", "*object"}, "Mixed": {"string", "int", "bool", "strings", "intmap"}, "URLEncode": {"string"},
@@ -811,6 +817,26 @@ func runC16(s *kernel.Sim) {
 	s.Drive(kernel.DriveOpts{IdleCap: time.Second, Until: func() bool { return done }})
 	if s.Violated() {
 		return
+	}
+	// receivers with method shapes the call machinery cannot serve as they are (variadic, a context that is not the
+	// first parameter): whatever Register makes of them - refuse, skip, or serve - a request must not crash the process
+	{
+		osrv := &jsonrpc2.Server{}
+		regErr := osrv.Register("o_", &RecvOdd{})
+		for _, c := range [][2]string{{"o_fine", `[]`}, {"o_join", `["-",["a","b"]]`}, {"o_join", `["-","a","b"]`}, {"o_join", `["-"]`}, {"o_late", `[1]`}, {"o_both", `[[1,2]]`}, {"o_both", `[1,2]`}, {"o_both", `[]`}} {
+			func() {
+				defer func() {
+					if r := recover(); r != nil {
+						s.Violate("process_crash", "a request to a registered method panics inside the call machinery", "Register(\"o_\", &RecvOdd{}) returned %v; request %s %s: panic: %v (over a WebSocket connection nothing recovers it: the process dies)", regErr, c[0], c[1], r)
+					}
+				}()
+				msg := &jsonrpc2.Message{Version: "2.0", ID: json.RawMessage("1"), Request: &jsonrpc2.Request{Method: c[0], Params: json.RawMessage(c[1])}}
+				osrv.Handle(context.Background(), msg)
+			}()
+		}
+		if s.Violated() {
+			return
+		}
 	}
 	runC16Production(s)
 	s.MarkNontrivial()
